@@ -878,6 +878,7 @@ func runBig(run *vf.Run, raw json.RawMessage, dir string) *vf.Result {
 		if err := b.round(kind); err != nil {
 			return fail(tag, err)
 		}
+		b.logf("%s: application transactions committed", tag)
 		if err := b.sync(); err != nil {
 			return fail(tag, err)
 		}
